@@ -159,7 +159,9 @@ class from_textfile(Source):
     def __init__(self, f, poll_interval=0.100, delimiter='\n',
                  from_end=False, **kwargs):
         if isinstance(f, str):
-            f = open(f)
+            # newline='': records come out as they are in the file, and a
+            # delimiter containing a carriage return can match
+            f = open(f, newline='')
         self.buffer = ''
         self.file = f
         self.from_end = from_end
